@@ -682,6 +682,8 @@ type stageExec struct {
 	misfed    map[string]bool // names for which some reception fed bytes other than the announced version's
 	failedAt  map[string]int // name -> op number of a `status` answer "failed" with only queries since
 	failedAcross map[string]int // the same, with only queries, crashes, recoveries and settles since
+	lastReq      map[string]int // name -> number of the last prepare / recv / ropen op that names it
+	lastProc     map[string]int // name -> number of the last `process NAME` op
 	servedUnrecovered bool // a request was served between a crash and the next recover
 	lastCrash, lastRecover, lastSettle int // op numbers of the last cut/crash, recover, settle
 	lastTouch map[string]int // token -> number of the last non-query op that mentions it (over-approximates "named in a request")
@@ -925,6 +927,23 @@ func (e *stageExec) Do(op []string) string {
 	case "status", "received", "receivedn", "scan", "observe", "mem", "crash", "recover", "settle":
 	default:
 		e.failedAcross = map[string]int{}
+	}
+	if e.lastReq == nil {
+		e.lastReq, e.lastProc = map[string]int{}, map[string]int{}
+	}
+	switch op[0] {
+	case "prepare", "recv", "racerecv":
+		if len(op) > 1 {
+			e.lastReq[unesc(op[1])] = e.nOps
+		}
+	case "ropen":
+		if len(op) > 2 {
+			e.lastReq[unesc(op[2])] = e.nOps
+		}
+	case "process":
+		if len(op) > 1 {
+			e.lastProc[unesc(op[1])] = e.nOps
+		}
 	}
 	switch op[0] {
 	case "status", "received", "receivedn", "scan", "observe", "mem", "firetimer", "settle", "oldlog":
@@ -1559,7 +1578,12 @@ func (e *stageExec) do1(op []string) string {
 			if e.failedAcross == nil {
 				e.failedAcross = map[string]int{}
 			}
-			e.failedAcross[name] = e.nOps
+			// the answer is about the transmission sent last only if its validation came after the last request that
+			// names the file (a Prepare of a new transmission removes the failed copy's companion: nothing is left to
+			// validate again after a restart, and the old answer stood for the previous transmission)
+			if q := e.lastReq[name]; e.lastSettle > q || e.lastProc[name] > q {
+				e.failedAcross[name] = e.nOps
+			}
 		} else {
 			delete(e.failedAt, name)
 			delete(e.failedAcross, name)
